@@ -121,20 +121,16 @@ def xcheck_g12s(x, rnd, scale):
                 dis('g12sKeypairGen', "%s tape=%s" % (name, hx(t)), lib, m)
             cnt('g12s.keypair')
             keys.append((d, M.privkey_enc(P, d), M.pubkey_calc(P, d)))
-        # generator failure: only rejected draws
+        # generator failure: only rejected draws (zeros): both must give up, after the same number of draws
         t = bytes(qo * 70)
         priv, pub = x.out(mo), x.out(2 * no)
-        err = x.call('g12sKeypairGen', priv, pub, prm, GEN, x.tape(t, mode=1))
-        if (err == 0) != (False):
-            dis('g12sKeypairGen', name + " all-zero generator", err, None)
-        try:
-            M.keypair_from_tape(P, t)
-            m = "value"
-        except EOFError:
-            m = "eof"
-        # 65 draws of 0 -> model returns None before the 70-draw tape ends
-        if M.keypair_from_tape(P, t) is not None:
-            dis('g12sKeypairGen', name + " all-zero generator", err, "model did not fail")
+        tp = x.tape(t, mode=1)
+        err = x.call('g12sKeypairGen', priv, pub, prm, GEN, tp)
+        pos = int.from_bytes(tp.read(0, 8), 'little')
+        tm = M.Tape(t)
+        m = M.keypair_from_tape(P, tm)
+        if err == 0 or m is not None or pos != tm.pos:
+            dis('g12sKeypairGen', name + " all-zero generator", (err, pos), (m, tm.pos))
         cnt('g12s.keypair')
 
         hashes = [bytes(mo), b"\xff" * mo, q.to_bytes(mo, 'big'), (q + 1).to_bytes(mo, 'big') if q + 1 < 1 << (8 * mo) else (q - 1).to_bytes(mo, 'big'),
@@ -230,6 +226,13 @@ def xcheck_g12s(x, rnd, scale):
                 both(h, sig, Q[0].to_bytes(no, 'little') + (Q[1] + P.p).to_bytes(no, 'little'), 'yQ+p')
             both(h, sig, bytes(2 * no), 'Q=(0,0)')
             both(h, sig, rnd.choice(keys)[2], 'other Q')
+        # forgery for the invalid "public key" (0, 0) (not a point of the curve): r = x((s / e) P) mod q
+        h = rnd.randbytes(mo)
+        e = M.hash_to_e(P, h)
+        t = rnd.randrange(1, q)
+        r = M.ec_mul(P, t, P.P)[0] % q
+        if r:
+            both(h, M.sig_enc(P, r, t * e % q), bytes(2 * no), 'forged for pubkey (0,0), which is not on the curve')
         # R = O: z1 P + z2 Q = O  <=>  s = r d  (with e arbitrary): s v P - r v d P
         d, priv, pub = keys[-1]
         h = rnd.randbytes(mo)
@@ -495,9 +498,19 @@ def xcheck_dstu(x, rnd, scale):
     import dstu as M
     for name, P0 in M.PARAMS.items():
         x.reset()
-        prm = x.out(DSTU_SIZEOF)
-        assert x.call('dstuParamsStd', prm, cstr(x, name)) == 0
-        raw = prm.read()
+        hold = {'gen': -1, 'buf': None, 'P': None}
+
+        def getprm():
+            """parameter buffer; recreated after an executor restart (crash)"""
+            if hold['gen'] != x.restarts:
+                b = x.out(DSTU_SIZEOF)
+                assert x.call('dstuParamsStd', b, cstr(x, name)) == 0
+                if hold['P'] is not None:
+                    b.write(hold['P'], DSTU_OFF_P)
+                hold['gen'], hold['buf'] = x.restarts, b
+            return hold['buf']
+
+        raw = getprm().read()
         assert tuple(int.from_bytes(raw[2 * i:2 * i + 2], 'little') for i in range(4)) == P0.p
         assert raw[8] == P0.A
         assert int.from_bytes(raw[9:73], 'little') == P0.B
@@ -524,11 +537,10 @@ def xcheck_dstu(x, rnd, scale):
             except EOFError:
                 continue
             try:
-                err = x.call('dstuPointGen', pt, prm, GEN, tp)
+                err = x.call('dstuPointGen', pt, getprm(), GEN, tp)
                 lib = (err, pt.read().hex(), int.from_bytes(tp.read(0, 8), 'little'))
             except Crash as c:
                 crash('dstuPointGen', '%s tape=%s' % (name, hx(t[:4 * no]) + '...'), c, hx(mp))
-                prm = x.out(DSTU_SIZEOF); x.call('dstuParamsStd', prm, cstr(x, name))
                 lib = None
             if lib is not None and lib != (0, mp.hex(), tm.pos):
                 dis('dstuPointGen', '%s tape=%s...' % (name, hx(t[:6 * no])), lib, (mp.hex(), tm.pos),
@@ -542,8 +554,9 @@ def xcheck_dstu(x, rnd, scale):
             P = P0
         else:
             P = P0.with_base(M.point_dec(P0, base))
-            prm.write(base, DSTU_OFF_P)
-        err = x.call('dstuParamsVal', prm)
+            hold['P'] = base
+            getprm().write(base, DSTU_OFF_P)
+        err = x.call('dstuParamsVal', getprm())
         if err != 0:
             dis('dstuParamsVal', name + ' with model-generated base point', err, 'valid')
         cnt('dstu.paramsval')
@@ -573,7 +586,7 @@ def xcheck_dstu(x, rnd, scale):
         for (w, pt) in pts:
             enc = pt[0].to_bytes(no, 'little') + pt[1].to_bytes(no, 'little')
             try:
-                err = x.call('dstuPointVal', prm, x.buf(enc))
+                err = x.call('dstuPointVal', getprm(), x.buf(enc))
             except Crash as c:
                 crash('dstuPointVal', '%s %s %s' % (name, w, hx(enc)), c, M.point_val(P, enc))
                 continue
@@ -590,7 +603,7 @@ def xcheck_dstu(x, rnd, scale):
             enc = M.point_enc(P, pt)
             xp = x.buf(b"\xCC" * no)
             try:
-                err = x.call('dstuPointCompress', xp, prm, x.buf(enc))
+                err = x.call('dstuPointCompress', xp, getprm(), x.buf(enc))
                 lib = (err, xp.read().hex())
             except Crash as c:
                 crash('dstuPointCompress', '%s %s %s' % (name, w, hx(enc)), c, hx(M.point_compress(P, enc)))
@@ -603,7 +616,7 @@ def xcheck_dstu(x, rnd, scale):
             # recover from the model's compressed form
             out = x.buf(b"\xCC" * (2 * no))
             try:
-                err = x.call('dstuPointRecover', out, prm, x.buf(mc))
+                err = x.call('dstuPointRecover', out, getprm(), x.buf(mc))
                 lib = (err, out.read().hex())
             except Crash as c:
                 crash('dstuPointRecover', '%s %s xpoint=%s' % (name, w, hx(mc)), c, hx(M.point_recover(P, mc)))
@@ -622,7 +635,7 @@ def xcheck_dstu(x, rnd, scale):
             xpb = xpv.to_bytes(no, 'little')
             out = x.buf(b"\xCC" * (2 * no))
             try:
-                err = x.call('dstuPointRecover', out, prm, x.buf(xpb))
+                err = x.call('dstuPointRecover', out, getprm(), x.buf(xpb))
                 lib = (err, out.read().hex())
             except Crash as c:
                 crash('dstuPointRecover', '%s xpoint=%s' % (name, hx(xpb)), c, hx(M.point_recover(P, xpb)))
@@ -644,7 +657,7 @@ def xcheck_dstu(x, rnd, scale):
             priv, pub = x.out(ono), x.out(2 * no)
             tp = x.tape(t)
             try:
-                err = x.call('dstuKeypairGen', priv, pub, prm, GEN, tp)
+                err = x.call('dstuKeypairGen', priv, pub, getprm(), GEN, tp)
                 lib = (err, priv.read().hex(), pub.read().hex(), int.from_bytes(tp.read(0, 8), 'little'))
             except Crash as c:
                 crash('dstuKeypairGen', '%s tape=%s' % (name, hx(t)), c, None)
@@ -670,7 +683,7 @@ def xcheck_dstu(x, rnd, scale):
             t = (bytes(ono) if rnd.random() < 0.3 else b"") + e.to_bytes(ono, 'little') + rnd.randrange(1, hi + 1).to_bytes(ono, 'little')
             sig = x.out(ld // 8)
             try:
-                err = x.call('dstuSign', sig, prm, ld, x.buf(h), len(h), x.buf(priv), GEN, x.tape(t))
+                err = x.call('dstuSign', sig, getprm(), ld, x.buf(h), len(h), x.buf(priv), GEN, x.tape(t))
                 lib = (err, sig.read().hex())
             except Crash as c:
                 crash('dstuSign', '%s ld=%d hash=%s d=%s tape=%s' % (name, ld, hx(h), hx(priv), hx(t)), c, None)
@@ -685,7 +698,7 @@ def xcheck_dstu(x, rnd, scale):
         for ld in (16 * ono - 16, 16 * ono + 8, 16 * ono + 1, 0):
             sig = x.out(max(ld // 8, 1) + 8)
             try:
-                err = x.call('dstuSign', sig, prm, ld, x.buf(bytes(32)), 32, x.buf(priv), GEN, x.tape(rnd.randbytes(4 * ono)))
+                err = x.call('dstuSign', sig, getprm(), ld, x.buf(bytes(32)), 32, x.buf(priv), GEN, x.tape(rnd.randbytes(4 * ono)))
             except Crash as c:
                 crash('dstuSign', '%s bad ld=%d' % (name, ld), c, 'error')
                 continue
@@ -697,11 +710,10 @@ def xcheck_dstu(x, rnd, scale):
                 continue
             sig = x.out(2 * ono)
             try:
-                err = x.call('dstuSign', sig, prm, 16 * ono, x.buf(bytes(32)), 32, x.buf(dbad.to_bytes(ono, 'little')), GEN, x.tape(rnd.randbytes(4 * ono)))
+                err = x.call('dstuSign', sig, getprm(), 16 * ono, x.buf(bytes(32)), 32, x.buf(dbad.to_bytes(ono, 'little')), GEN, x.tape(rnd.randbytes(4 * ono)))
                 lib = (err, sig.read().hex())
             except Crash as c:
                 crash('dstuSign', '%s privkey=%s (not in 1..n-1)' % (name, hx(dbad.to_bytes(ono, 'little'))), c, 'ERR_BAD_PRIVKEY')
-                prm = x.out(DSTU_SIZEOF); x.call('dstuParamsStd', prm, cstr(x, name)); prm.write(M.point_enc(P, P.P), DSTU_OFF_P)
                 continue
             if err == 0:
                 dis('dstuSign', '%s privkey=%s (d = %s)' % (name, hx(dbad.to_bytes(ono, 'little')), 'n + %d' % (dbad - n) if dbad >= n else '0'), lib,
@@ -711,7 +723,7 @@ def xcheck_dstu(x, rnd, scale):
         # ---- verify
         def both(ld, h, sig, pub, what):
             try:
-                err = x.call('dstuVerify', prm, ld, x.buf(h), len(h), x.buf(sig), x.buf(pub))
+                err = x.call('dstuVerify', getprm(), ld, x.buf(h), len(h), x.buf(sig), x.buf(pub))
             except Crash as c:
                 crash('dstuVerify', '%s %s ld=%d hash=%s sig=%s pub=%s' % (name, what, ld, hx(h), hx(sig), hx(pub)), c, M.verify(P, ld, h, sig, pub))
                 return None
@@ -783,6 +795,183 @@ def xcheck_dstu(x, rnd, scale):
 
 
 # =============================================================================
+# pfok
+# =============================================================================
+
+PFOK_SIZEOF = 3 * 8 + 368 * 2      # size_t l, r, n; octet p[368], g[368]
+
+
+def xcheck_pfok(x, rnd, scale):
+    import pfok as M
+    for name, P in M.PARAMS.items():
+        x.reset()
+        hold = {'gen': -1, 'buf': None}
+
+        def getprm():
+            if hold['gen'] != x.restarts:
+                b = x.out(PFOK_SIZEOF)
+                assert x.call('pfokParamsStd', b, None, cstr(x, name)) == 0
+                hold['gen'], hold['buf'] = x.restarts, b
+            return hold['buf']
+
+        raw = getprm().read()
+        assert int.from_bytes(raw[0:8], 'little') == P.l
+        assert int.from_bytes(raw[8:16], 'little') == P.r
+        assert int.from_bytes(raw[16:24], 'little') == P.n
+        assert int.from_bytes(raw[24:392], 'little') == P.p
+        assert int.from_bytes(raw[392:760], 'little') == P.g
+        err = x.call('pfokParamsVal', getprm())
+        if (err == 0) != M.params_val(P):
+            dis('pfokParamsVal', name, err, M.params_val(P))
+        cnt('pfok.params')
+        lo, ro, no, r, p = P.lo, P.ro, P.no, P.r, P.p
+        # g variations for ParamsVal
+        for gv in [1, p - 1, M.mont_unit(P), (p - M.mont_unit(P)) % p, P.g + 1, P.g + 2, M.mont_mul(P, P.g, P.g), rnd.randrange(1, p), 0, p]:
+            b = x.buf(raw)
+            b.write((gv % (1 << (8 * 368))).to_bytes(368, 'little'), 392)
+            try:
+                err = x.call('pfokParamsVal', b)
+            except Crash as c:
+                crash('pfokParamsVal', '%s g=%x' % (name, gv), c, M.params_val(M.Params(name, P.l, P.r, P.n, p, gv)))
+                continue
+            mv = M.params_val(M.Params(name, P.l, P.r, P.n, p, gv))
+            if (err == 0) != mv:
+                dis('pfokParamsVal', '%s g=%x' % (name, gv), err, mv)
+            cnt('pfok.paramsval_g')
+
+        def call(fn, inp, model, *args, outs=()):
+            try:
+                err = x.call(fn, *args)
+            except Crash as c:
+                crash(fn, inp, c, model)
+                return None
+            return (err,) + tuple(o.read() for o in outs)
+
+        # ---- keys
+        top = 8 * ro - r
+        privs = []
+        tapes = [bytes(ro), b"\xff" * ro, (1).to_bytes(ro, 'little'), ((1 << r) - 1).to_bytes(ro, 'little')]
+        tapes += [rnd.randbytes(ro) for _ in range(4 * scale)]
+        if top:
+            tapes.append((1 << r).to_bytes(ro, 'little'))          # trimmed to 0
+        for t in tapes:
+            priv, pub = x.out(ro), x.out(lo)
+            tp = x.tape(t)
+            mk = M.keypair_from_tape(P, t)
+            lib = call('pfokKeypairGen', '%s tape=%s' % (name, hx(t)), mk, priv, pub, getprm(), GEN, tp, outs=(priv, pub))
+            if lib is not None and lib != (0,) + mk:
+                dis('pfokKeypairGen', '%s tape=%s' % (name, hx(t)), (lib[0],) + tuple(hx(v) for v in lib[1:]), tuple(hx(v) for v in mk))
+            cnt('pfok.keypair')
+            privs.append(mk)
+        for d in [0, 1, 2, (1 << r) - 1, (1 << (r - 1))] + [rnd.getrandbits(r) for _ in range(3 * scale)]:
+            priv = d.to_bytes(ro, 'little')
+            pub = x.out(lo)
+            mp = M.pubkey_calc(P, priv)
+            lib = call('pfokPubkeyCalc', '%s d=%s' % (name, hx(priv)), hx(mp), pub, getprm(), x.buf(priv), outs=(pub,))
+            if lib is not None and lib != (0, mp):
+                dis('pfokPubkeyCalc', '%s d=%s' % (name, hx(priv)), (lib[0], hx(lib[1])), hx(mp))
+            cnt('pfok.pubkeycalc')
+            privs.append((priv, mp))
+        if top:
+            for d in [1 << r, (1 << (8 * ro)) - 1, (1 << (8 * ro - 1)) | 5]:
+                priv = d.to_bytes(ro, 'little')
+                pub = x.out(lo)
+                lib = call('pfokPubkeyCalc', '%s bad d=%s' % (name, hx(priv)), 'error', pub, getprm(), x.buf(priv))
+                if lib is not None and (lib[0] == 0) != M.privkey_ok(P, priv):
+                    dis('pfokPubkeyCalc', '%s d=%s' % (name, hx(priv)), lib, 'ERR_BAD_PRIVKEY (more than r bits)')
+                cnt('pfok.pubkeycalc_bad')
+        # ---- pubkey validation
+        pubs = [0, 1, 2, p - 1, p, p + 1, (1 << (8 * lo)) - 1, M.mont_unit(P), rnd.randrange(1, p), rnd.randrange(p, 1 << (8 * lo))]
+        for q in pubs:
+            qb = q.to_bytes(lo, 'little')
+            lib = call('pfokPubkeyVal', '%s Q=%s' % (name, hx(qb)), M.pubkey_val(P, qb), getprm(), x.buf(qb))
+            if lib is not None and (lib[0] == 0) != M.pubkey_val(P, qb):
+                dis('pfokPubkeyVal', '%s Q=%s' % (name, hx(qb)), lib[0], M.pubkey_val(P, qb))
+            cnt('pfok.pubkeyval')
+
+        # ---- DH
+        def lib_dh(priv, pub):
+            key = x.buf(b"\xCC" * no)
+            try:
+                m = M.dh(P, priv, pub)
+            except ValueError as e:
+                m = str(e)
+            lib = call('pfokDH', '%s d=%s Q=%s' % (name, hx(priv), hx(pub)), hx(m), key, getprm(), x.buf(priv), x.buf(pub), outs=(key,))
+            if lib is None:
+                return None
+            if isinstance(m, str):
+                if lib[0] == 0:
+                    dis('pfokDH', '%s d=%s Q=%s' % (name, hx(priv), hx(pub)), (lib[0], hx(lib[1])), 'error: ' + m)
+            elif lib != (0, m):
+                dis('pfokDH', '%s d=%s Q=%s' % (name, hx(priv), hx(pub)), (lib[0], hx(lib[1])), hx(m))
+            cnt('pfok.dh')
+            return lib[1] if lib[0] == 0 else None
+
+        for _ in range(6 * scale):
+            (a, Qa), (b, Qb) = rnd.sample(privs, 2)
+            k1, k2 = lib_dh(a, Qb), lib_dh(b, Qa)
+            if k1 != k2:
+                dis('pfokDH', '%s not symmetric a=%s b=%s' % (name, hx(a), hx(b)), (hx(k1), hx(k2)), 'equal')
+        for q in [1, 2, p - 1, M.mont_unit(P), rnd.randrange(1, p)]:
+            for d in [0, 1, (1 << r) - 1, rnd.getrandbits(r)]:
+                lib_dh(d.to_bytes(ro, 'little'), q.to_bytes(lo, 'little'))
+        for q in [0, p, p + 1, (1 << (8 * lo)) - 1]:
+            lib_dh(privs[-1][0], q.to_bytes(lo, 'little'))
+        if top:
+            lib_dh((1 << r).to_bytes(ro, 'little'), privs[0][1])
+            lib_dh(b"\xff" * ro, privs[0][1])
+
+        # ---- MTI
+        def lib_mti(d, u, Q, V):
+            key = x.buf(b"\xCC" * no)
+            try:
+                m = M.mti(P, d, u, Q, V)
+            except ValueError as e:
+                m = str(e)
+            inp = '%s x=%s u=%s Y=%s V=%s' % (name, hx(d), hx(u), hx(Q), hx(V))
+            lib = call('pfokMTI', inp, hx(m), key, getprm(), x.buf(d), x.buf(u), x.buf(Q), x.buf(V), outs=(key,))
+            if lib is None:
+                return None
+            if isinstance(m, str):
+                if lib[0] == 0:
+                    dis('pfokMTI', inp, (lib[0], hx(lib[1])), 'error: ' + m)
+            elif lib != (0, m):
+                dis('pfokMTI', inp, (lib[0], hx(lib[1])), hx(m))
+            cnt('pfok.mti')
+            return lib[1] if lib[0] == 0 else None
+
+        for _ in range(6 * scale):
+            (xa, ya), (ua, va), (xb, yb), (ub, vb) = [rnd.choice(privs) for _ in range(4)]
+            k1 = lib_mti(xa, ua, yb, vb)
+            k2 = lib_mti(xb, ub, ya, va)
+            if k1 != k2:
+                dis('pfokMTI', '%s not symmetric' % name, (hx(k1), hx(k2)), 'equal')
+        (xa, ya), (ua, va) = privs[0], privs[1]
+        lib_mti(xa, ua, bytes(lo), va)
+        lib_mti(xa, ua, ya, p.to_bytes(lo, 'little'))
+        lib_mti(xa, ua, ya, bytes(lo))
+        if top:
+            lib_mti(b"\xff" * ro, ua, ya, va)
+            lib_mti(xa, (1 << r).to_bytes(ro, 'little'), ya, va)
+    print("pfok done:", {k: v for k, v in CNT.items() if k.startswith('pfok')})
+
+
+# =============================================================================
+
+def new_x():
+    """executor on a private snapshot of the current build: other agents rebuild /repo concurrently and the
+    shared cache directory of an older tree may disappear while we run (restarts would then fail)"""
+    import shutil, tempfile
+    x = X('asan')
+    snap = os.path.join(tempfile.mkdtemp(prefix='xcheck_pk2_'), os.path.basename(x.dir))
+    try:
+        shutil.copytree(x.dir, snap)
+        x.dir = snap
+    except Exception as e:
+        print("  (no snapshot: %s)" % e)
+    print("library build:", os.path.basename(x.dir))
+    return x
+
 
 def main():
     args = sys.argv[1:]
@@ -793,17 +982,31 @@ def main():
         scale = int(args[args.index('--scale') + 1])
     which = [a for a in args if a in ('g12s', 'dstu', 'pfok', 'bels')] or ['g12s', 'bels', 'dstu', 'pfok']
     rnd = random.Random(seed)
-    x = X('asan')
+    x = new_x()
     for w in which:
         fn = globals().get('xcheck_' + w)
         if fn is None:
             print(w, "not implemented")
             continue
-        try:
-            fn(x, rnd, scale)
-        except Crash as c:
-            dis(w, "uncaught crash", "CRASH %s %s" % (c.kind, str(c)[:600]), "n/a")
-            x.reset()
+        for attempt in range(4):
+            nd, cn = len(DIS), dict(CNT)
+            seen = set(_SEEN)
+            try:
+                fn(x, random.Random(seed), scale)
+                break
+            except Crash as c:
+                dis(w, "uncaught crash", "CRASH %s %s" % (c.kind, str(c)[:600]), "n/a")
+                x.reset()
+                break
+            except (FileNotFoundError, BrokenPipeError, OSError) as e:
+                # the library tree / build cache changed while running: rebuild and redo this section
+                print("  [%s] executor lost (%s), rebuilding and repeating the section" % (w, e))
+                del DIS[nd:]
+                CNT.clear(); CNT.update(cn)
+                _SEEN.clear(); _SEEN.update(seen)
+                import x as xmod
+                xmod._dirs.clear()
+                x = new_x()
     print("\ncounts:", CNT)
     print("disagreements: %d" % len(DIS))
     by = {}
@@ -811,6 +1014,10 @@ def main():
         by.setdefault(d[0], []).append(d)
     for k, v in by.items():
         print("  %s: %d" % (k, len(v)))
+    if '--dump' in args:
+        import json
+        with open(args[args.index('--dump') + 1], 'w') as f:
+            json.dump([[str(v) for v in d] for d in DIS], f, indent=1)
     return 0
 
 
